@@ -5,7 +5,7 @@
    lib/loop_job.c, lib/util.c clock).  `fixed' = the tree with fixes/C09-*.patch, `as_found' = commit 6c47408. *)
 From Coq Require Import ZArith List Bool Sorted.
 Require Import Verif.gen.Consts_looptimer Verif.HeapModel Verif.HeapProofs Verif.LoopTimerModel
-               Verif.LoopTimerArith Verif.LoopTimerWitness Verif.LoopTimerProofs Verif.LoopTimerStrong.
+               Verif.LoopTimerArith Verif.LoopTimerWitness Verif.LoopTimerProofs Verif.LoopTimerStrong Verif.LoopTimerOrder Verif.LoopTimerOrderWitness.
 Import ListNotations.
 Local Open Scope Z_scope.
 
@@ -228,6 +228,29 @@ Example C09_consistent_example :
   err st = false /\
   filter (fun e => match e with ECb _ _ _ => true | _ => false end) (rev (out st)) = [ECb 0 2 2001003; ECb 0 4 16001007].
 Proof. exact forged_handle_fixed_witness. Qed.
+
+(* ---------------------------------------------------------------- expiry order within a priority *)
+(* END TO END, repaired code, ALL histories: `ev_exps p' lists, in the order the callbacks ran, the expiry times
+   (clock at add + duration asked, as unbounded integers) of the timer callbacks of priority p.  It is
+   non-decreasing: timers of the same priority are dispatched in the order of their expiry times - across turns,
+   runs, deletions, additions from inside callbacks, for every 64-bit duration. *)
+Theorem C09_expiry_order : forall beh ops hz0 clk0 cstep0 p,
+  0 < hz0 -> 0 < clk0 <= LT_UINT64_MAX -> wf2_beh beh -> Forall wf2_op ops -> vp p ->
+  StronglySorted Z.le (ev_exps p (rev (out (run fixed beh (lp_init hz0 clk0 cstep0) ops)))).
+Proof. exact expiry_order_all_histories. Qed.
+Print Assumptions C09_expiry_order.
+
+Example C09_expiry_order_example :
+  ev_exps 1 (rev (out (run fixed ex_beh (lp_init (hz_of_res 4000000) 1000 3) ex_ops))) = [3001000; 4001006; 52001017] /\
+  ev_exps 2 (rev (out (run fixed [] init0 w_order))) = [1001000].
+Proof. exact order_example. Qed.
+
+(* the code as found: a timer whose expiry wrapped runs before one that expires 2^64 ns earlier *)
+Theorem C09_expiry_order_refuted :
+  ev_exps 2 (rev (out (run as_found [] init0 w_order))) = [18446744073709552610; 1001000] /\
+  ~ StronglySorted Z.le (ev_exps 2 (rev (out (run as_found [] init0 w_order)))).
+Proof. exact order_as_found_refuted. Qed.
+Print Assumptions C09_expiry_order_refuted.
 
 (* ---------------------------------------------------------------- the queries *)
 (* time-remaining / is-running / expire-time agree, in any state: is_running <> 0 exactly when expire_time_get <> 0;
